@@ -120,20 +120,26 @@ Built build_program(const Plan& plan, World& w, CodeHolder& code, x86::Assembler
         if (op.kind == kRelData) {
           m.set_addr_rel();
           size_t before = a.offset();
-          Error e = a.add(x86::rbx, m);
+          // some of these carry an immediate BEHIND the displacement (imul r, [mem], imm32): the displacement is then not the
+          // last field of the instruction although it is still measured from the instruction's end
+          uint32_t mul = (op.a[1] % 3) == 0 ? uint32_t(130 + op.a[1] % 1000) : 0;
+          Error e = mul ? a.imul(x86::rax, m, Imm(mul)) : a.add(x86::rbx, m);
           if (e != Error::kOk) {
             // With the base known in advance the assembler resolves the displacement itself and must refuse a target
             // that is out of reach; with an unknown base it cannot know and has to emit a relocation.
             bool known = code.has_base_address();
-            bool reach = known && reachable_rel32(code.base_address() + before + 8, uint64_t(uintptr_t(d.slot)));
+            bool reach = known && reachable_rel32(code.base_address() + before + (mul ? 11 : 8), uint64_t(uintptr_t(d.slot)));
             SIM_CHECK(known && !reach, "c04:reachable-target-refused", "forced RIP-relative operand onto %#llx was refused with error %u (base %s)", (unsigned long long)uintptr_t(d.slot), unsigned(e), known ? "known, target reachable" : "unknown");
             sim::count("c04.probe.unreachable_refused_at_emit");
             break;
           }
           b.forced_rel_sites.emplace_back(a.offset(), uint64_t(uintptr_t(d.slot)));
+          if (mul) { a.add(x86::rbx, x86::rax); b.expected += d.value * mul; sim::count("c04.probe.immediate_behind_relocated_displacement"); break; }
         }
         else {
           m.set_addr_abs();
+          uint32_t mul = (op.a[1] % 3) == 0 ? uint32_t(130 + op.a[1] % 1000) : 0;
+          if (mul) { a.imul(x86::rax, m, Imm(mul)); a.add(x86::rbx, x86::rax); b.expected += d.value * mul; break; }
           a.add(x86::rbx, m);
         }
         b.expected += d.value;
